@@ -65,6 +65,11 @@ func ip2int(ip net.IP) uint32 {
 		return binary.BigEndian.Uint32(ip[12:16])
 	}
 
+	if len(ip) != 4 {
+		// no IPv4 address present (e.g. an IPv6-only F-TEID, F-SEID or outer header)
+		return 0
+	}
+
 	return binary.BigEndian.Uint32(ip)
 }
 
